@@ -2,12 +2,15 @@
 
 Theorems: lean/GoluaVerif/Props/C13.lean over Model.Marshal (the byte format of runtime/marshal.go).
 Correspondence (harness/cmd/c13, lean/Oracle/C13.lean):
-  level B  the prototype tree of every generated function (exported through the verif hook VerifCodeFields after
+  level B  Model.Refactor.refactor applied to the exported UNREFACTORED prototype + the chunk's shared constant vector
+           gives exactly the tree RefactorCodeConsts produced; the prototype tree of every generated function (exported through the verif hook VerifCodeFields after
            RefactorCodeConsts) is encoded by Model.marshal to exactly the bytes string.dump returned; Model.unmarshal of
            the real bytes gives the tree back and re-encodes to the same bytes; Model.load agrees with golua's load on
            damaged dumps (ok / err / panic);
   level A  (Go only) f versus load(string.dump(f)) on 7 argument tuples: same results, same error values including the
-           chunkname:line prefix; dump(load(dump f)) = dump f; dumping twice gives the same bytes; every truncated dump is
+           chunkname:line prefix, compared by subtype and bit pattern; every dump is TAKEN first and verified only after all
+           other dumps and allocation-heavy calls (the kept string must still equal a fresh dump and load correctly);
+           dump(load(dump f)) = dump f; every truncated dump is
            rejected; no damaged dump panics, hangs or takes the process down (child process, RLIMIT_AS, timeout)."""
 import binascii
 import os
@@ -41,7 +44,17 @@ def check_gen(ctx, lines):
         lhs, rhs = line.split(" = ", 1)
         t = lhs.split(" ")
         kind, fid = t[0], t[1]
-        if kind == "dump":
+        if kind == "unit":
+            ctx.case("unit " + fid, True)
+            ctx.count("refactor:unit-consts<%d" % (1 << len(t).bit_length()))
+            if e == "bad-line":
+                raise common.BuildError("oracle could not parse the unit of " + fid)
+            if e != "R=1":
+                ctx.violation("model refactor " + fid,
+                              "Model.Refactor.refactor of the exported prototype and shared constant vector differs from the tree "
+                              "RefactorCodeConsts produced: " + e,
+                              "c13 src %s\noracle: %s\n" % (fid, e), found_input=False)
+        elif kind == "dump":
             nt[fid] = gen_nontrivial(t[2:])
             ctx.case("dump " + fid + " " + rhs[:64], nt[fid])
             ctx.count("dump:bytes<%d" % (1 << (len(rhs) // 2).bit_length()))
